@@ -236,6 +236,36 @@ def base64Ok (s : List Char) : Bool :=
 
 def hexBinaryOk (s : List Char) : Bool := s.length % 2 == 0 && s.all isHex
 
+/-- split at every occurrence of `sep` (like Python's `str.split(sep)`) -/
+def splitOn (sep : Char) : List Char → List (List Char)
+  | [] => [[]]
+  | c :: cs =>
+    match splitOn sep cs with
+    | [] => [[]]
+    | l :: ls => if c == sep then [] :: l :: ls else (c :: l) :: ls
+
+/-- `[a-z0-9]` under `re.I`: ASCII letters and digits, plus the two characters whose case folding lands in
+    `a-z` (U+017F LATIN SMALL LETTER LONG S, U+212A KELVIN SIGN) -/
+def isDnsAlnum (c : Char) : Bool := isAlnum c || c.toNat == 0x17F || c.toNat == 0x212A
+
+/-- `[a-z0-9]([a-z0-9-]*[a-z0-9])?` -/
+def dnsLabelOk (l : List Char) : Bool :=
+  match l.head?, l.getLast? with
+  | some a, some z => isDnsAlnum a && isDnsAlnum z && l.all fun c => isDnsAlnum c || c == '-'
+  | _, _ => false
+
+/-- `saml2.validate.valid_domain_name` (the library's own check of `SubjectLocality/@DNSName`, part of
+    `valid_instance`): `^label(\.label)*(:[0-9]{1,5})?$` with `re.I`; Python's `$` also matches before one
+    trailing newline. -/
+def domainNameOk (s : List Char) : Bool :=
+  let s := if s.getLast? == some '\n' then s.dropLast else s
+  let host := s.takeWhile (· != ':')
+  let portOk :=
+    match s.dropWhile (· != ':') with
+    | [] => true
+    | _ :: p => 1 ≤ p.length && p.length ≤ 5 && p.all isDigit
+  portOk && (splitOn '.' host).all dnsLabelOk
+
 def booleanOk (s : List Char) : Bool :=
   s == "true".toList || s == "false".toList || s == "1".toList || s == "0".toList
 
